@@ -1,4 +1,197 @@
-import AY.Spec.Plain
+/-
+  AY.Props.C10 — every dynamic node is evaluated exactly once, independent of layout.
+
+  Property text: "During one build each !call / !eval node runs exactly once no matter how many
+  references, arguments or evaluated expressions consume it, all consumers see the same resulting
+  object, and the evaluated config does not depend on the order in which keys are written in the
+  documents. Nodes that no longer exist after merging (overwritten or deleted) are never evaluated."
+
+  The statements are about `evalNodeF` / `evalImpl` / `evaluate` of AY.Model.Eval. An execution is
+  a `LogEntry`; node identity is the path (the merged tree has no aliasing). Only property theorems
+  live here; lemmas are in AY.Lemmas.EvalLemmas and AY.Lemmas.OnceLemmas (`Cov`, `evalNodeF_cov`).
+  `WF` is the invariant of the evaluator state
+    prog   : a path under evaluation is not memoised yet
+    taint  : tainted paths are memoised
+    logged : every logged path is memoised
+    nodup  : the logged paths are pairwise distinct
+  and `Ext s s'` the extension order (memoised values are kept, the log grows at the end, …).
+  Key-order independence of the evaluated config is not treated here.
+-/
+import AY.Lemmas.OnceLemmas
 namespace AY
-theorem C10_placeholder : foldUpd [] = .error .value := rfl
+
+/-- `f: !call f {a: !import os}`, consumed by two references, a bind argument and the mapping itself -/
+def c10ExTree : Node :=
+  .comp {} .dict [
+    (.str "r1", .leaf {} (.xref "f")),
+    (.str "f", .comp {} (.call "f") [(.str "a", .leaf {} (.imp "os"))]),
+    (.str "r2", .leaf {} (.xref "r1")),
+    (.str "g", .comp {} (.bind "f") [(.str "a", .leaf {} (.xref "f"))])]
+
+def c10ExWorld : World := { sigs := [("f", [{ name := "a", kind := .posOrKw }])], modules := ["os"] }
+
+/-! ### A memo hit executes nothing -/
+
+/- "each !call / !eval node runs exactly once no matter how many references, arguments or evaluated
+   expressions consume it": once a path is memoised, `evaluate_node` on it — from any consumer, with
+   any node, in any mode — returns the memoised value and leaves log and memo table unchanged -/
+theorem C10_cache_hit_no_log (root : Node) (w : World) (fuel : Nat) (rs : Bool) (n : Node) (path : Path)
+    (st st' : EvSt) (v0 v : Val) (hc : plookup path st.cache = some v0)
+    (h : evalNodeF root w fuel rs n path st = .ok (v, st')) :
+    v = v0 ∧ st'.log = st.log ∧ st'.cache = st.cache := by
+  cases fuel with
+  | zero => simp [evalNodeF] at h
+  | succ fuel =>
+    obtain ⟨_, hcase⟩ := evalNodeF_ok_inv h
+    rcases hcase with ⟨hv, _, rfl⟩ | ⟨hnone, _⟩
+    · rw [hc] at hv; cases hv
+      exact ⟨rfl, by simp, by simp⟩
+    · rw [hc] at hnone; cases hnone
+
+example : ∃ v st', evalNodeF c10ExTree c10ExWorld 5 false (.comp {} (.call "f") []) [.str "f"]
+    { cache := [([.str "f"], .sym "memo")], log := [⟨[.str "f"], "call:f"⟩] } = .ok (v, st') ∧
+    v = .sym "memo" ∧ st'.log = [⟨[.str "f"], "call:f"⟩] := by
+  refine ⟨_, _, rfl, ?_, ?_⟩ <;> rfl
+
+/- the same for the two other ways a consumer reaches a memoised value: `ctx.get_node` (references)
+   and `ecfg[name]` (names in `!eval` code) return it without touching the state -/
+theorem C10_lookup_hit_no_log (rec : Rec) (root : Node) (rs : Bool) (p : Path) (nm : String)
+    (st st' : EvSt) (v0 v : Val) :
+    (plookup p st.cache = some v0 → ∀ g, ctxGetNode root rs p st = .ok g → g = .value v0) ∧
+    (plookup [Key.str nm] st.cache = some v0 → ecfgLookup rec root nm st = .ok (v, st') →
+      v = v0 ∧ st' = st) := by
+  refine ⟨?_, ?_⟩
+  · intro hc g hg
+    simp only [ctxGetNode, hc] at hg
+    split at hg <;> cases hg
+    rfl
+  · intro hc h
+    simp only [ecfgLookup, hc] at h
+    split at h <;> cases h
+    exact ⟨rfl, rfl⟩
+
+example : ∃ g, ctxGetNode c10ExTree false [.str "f"] { cache := [([.str "f"], .sym "memo")] } = .ok g :=
+  ⟨_, rfl⟩
+
+/-! ### Exactly once -/
+
+/- "runs exactly once" (at most once): the invariant `WF` — the logged paths are pairwise distinct
+   and every logged path is memoised — is preserved by every successful `evalNodeF`; the state only
+   grows (`Ext`). This is the full invariant, not a conditional step lemma. -/
+theorem C10_log_once (root : Node) (w : World) (fuel : Nat) (rs : Bool) (n : Node) (path : Path)
+    (st st' : EvSt) (v : Val) (hwf : WF st)
+    (h : evalNodeF root w fuel rs n path st = .ok (v, st')) : WF st' ∧ Ext st st' :=
+  evalNodeF_wf root w fuel rs n path st v st' hwf h
+
+/- for a whole build: no path occurs twice in the execution log -/
+theorem C10_evaluate_log_nodup (w : World) (root : Node) (v : Val) (st : EvSt)
+    (h : evaluate w root = .ok (v, st)) :
+    (st.log.map (·.path)).Nodup ∧ ∀ e, e ∈ st.log → plookup e.path st.cache ≠ none := by
+  have := (C10_log_once root w _ false root [] {} st v WF.init h).1
+  exact ⟨this.nodup, this.logged⟩
+
+example : ∃ v st, evaluate c10ExWorld c10ExTree = .ok (v, st) ∧
+    st.log.map (·.what) = ["import:os", "call:f", "bind:f"] := by
+  refine ⟨_, _, rfl, ?_⟩; rfl
+
+/- (at least once, for a node that is evaluated) a `!call` / `!bind` / `!eval` / `!import` node
+   (`dynWhat n = some what`) whose fresh evaluation succeeds has its execution in the log, and by
+   `WF.nodup` exactly one entry of the log carries its path -/
+theorem C10_dynamic_node_logged_once (root : Node) (w : World) (fuel : Nat) (rs : Bool) (n : Node)
+    (path : Path) (st st' : EvSt) (v : Val) (what : String) (hwf : WF st)
+    (hd : dynWhat n = some what) (hfresh : plookup path st.cache = none)
+    (h : evalNodeF root w fuel rs n path st = .ok (v, st')) :
+    (⟨path, what⟩ : LogEntry) ∈ st'.log ∧ (st'.log.map (·.path)).count path = 1 := by
+  have hwf' := (evalNodeF_wf root w fuel rs n path st v st' hwf h).1
+  have hmem : (⟨path, what⟩ : LogEntry) ∈ st'.log := by
+    cases fuel with
+    | zero => simp [evalNodeF] at h
+    | succ fuel =>
+      obtain ⟨_, hcase⟩ := evalNodeF_ok_inv h
+      rcases hcase with ⟨hv, _, _⟩ | ⟨_, _, st2, himpl, rfl⟩
+      · rw [hfresh] at hv; cases hv
+      · obtain ⟨st1, rfl⟩ := evalImpl_dyn_logs hd himpl
+        simp
+  refine ⟨hmem, ?_⟩
+  rw [hwf'.nodup.count, if_pos (List.mem_map.2 ⟨_, hmem, rfl⟩)]
+
+example : dynWhat (.comp {} (.call "f") [(.str "a", .leaf {} (.imp "os"))]) = some "call:f" := rfl
+
+/- "each !call / !eval node runs exactly once": for a tree whose containers have pairwise distinct
+   keys (`uniqueKeys`: every tree the library builds — `_children` is a Python dict), a successful
+   build has, for *every* dynamic node `m` of the tree (at any path `p`, whoever consumes it, wherever
+   it is written), exactly one log entry with that path, and it carries the node's label.
+   (`Cov` of AY.Lemmas.OnceLemmas: a memoised node has all its descendants memoised, a memoised
+   dynamic node is logged.) -/
+theorem C10_exactly_once (w : World) (root : Node) (v : Val) (st : EvSt)
+    (huk : uniqueKeys root = true) (h : evaluate w root = .ok (v, st))
+    (p : Path) (m : Node) (what : String) (hm : getNode root p = some m) (hd : dynWhat m = some what) :
+    (⟨p, what⟩ : LogEntry) ∈ st.log ∧ (st.log.map (·.path)).count p = 1 :=
+  evaluate_dyn_logged huk h hm hd
+
+example : uniqueKeys c10ExTree = true ∧
+    getNode c10ExTree [.str "f", .str "a"] = some (.leaf {} (.imp "os")) ∧
+    dynWhat (.leaf {} (.imp "os")) = some "import:os" := ⟨rfl, rfl, rfl⟩
+
+/- without the hypothesis on keys the statement fails in the model for the shadowed entry: the
+   second `a` is never evaluated (its path is memoised by the first) -/
+example : ∃ v st, evaluate c10ExWorld (.comp {} .dict [(.str "a", .leaf {} (.scalar .null)), (.str "a", .leaf {} (.imp "os"))])
+    = .ok (v, st) ∧ st.log = [] := by
+  refine ⟨_, _, rfl, ?_⟩; rfl
+
+/-! ### All consumers see the same object -/
+
+/- "all consumers see the same resulting object": two successful evaluations of the same path in
+   the course of one build — whatever happens in between (`Ext st1 st2`: any number of successful
+   evaluations, see `C10_log_once` and `Ext.trans`), whichever node, mode and fuel the second
+   consumer uses — return the same `Val` (same `oid`), and the second one executes nothing -/
+theorem C10_shared_result (root : Node) (w : World) (fuel1 fuel2 : Nat) (rs1 rs2 : Bool) (n1 n2 : Node)
+    (path : Path) (st0 st1 st2 st3 : EvSt) (v1 v2 : Val)
+    (h1 : evalNodeF root w fuel1 rs1 n1 path st0 = .ok (v1, st1))
+    (hext : Ext st1 st2)
+    (h2 : evalNodeF root w fuel2 rs2 n2 path st2 = .ok (v2, st3)) :
+    v2 = v1 ∧ st3.log = st2.log := by
+  have hc := hext.cache path v1 (evalNodeF_cached h1)
+  have := C10_cache_hit_no_log root w fuel2 rs2 n2 path st2 st3 v1 v2 hc h2
+  exact ⟨this.1, this.2.1⟩
+
+/- the same with an explicit evaluation of another node in between -/
+theorem C10_shared_result_interleaved (root : Node) (w : World) (fuel1 fuel2 fuel3 : Nat)
+    (rs1 rs2 rs3 : Bool) (n1 n2 n3 : Node) (path other : Path) (st0 st1 st2 st3 : EvSt) (v1 v2 v3 : Val)
+    (hwf : WF st0)
+    (h1 : evalNodeF root w fuel1 rs1 n1 path st0 = .ok (v1, st1))
+    (h2 : evalNodeF root w fuel2 rs2 n2 other st1 = .ok (v2, st2))
+    (h3 : evalNodeF root w fuel3 rs3 n3 path st2 = .ok (v3, st3)) :
+    v3 = v1 ∧ st3.log = st2.log := by
+  have hwf1 := (evalNodeF_wf root w fuel1 rs1 n1 path st0 v1 st1 hwf h1).1
+  have hext := (evalNodeF_wf root w fuel2 rs2 n2 other st1 v2 st2 hwf1 h2).2
+  exact C10_shared_result root w fuel1 fuel3 rs1 rs3 n1 n3 path st0 st1 st2 st3 v1 v3 h1 hext h3
+
+/- the call result is one object (`oid = [f]`) under `r1`, `f`, `r2` and inside the partial `g` -/
+example : ∃ st, evaluate c10ExWorld c10ExTree = .ok
+    (.dict [] [
+      (.str "r1", .app [.str "f"] "f" [("a", .sym "os")] [] []),
+      (.str "f", .app [.str "f"] "f" [("a", .sym "os")] [] []),
+      (.str "r2", .app [.str "f"] "f" [("a", .sym "os")] [] []),
+      (.str "g", .part [.str "g"] "f" [] [("a", .app [.str "f"] "f" [("a", .sym "os")] [] [])])], st) :=
+  ⟨_, rfl⟩
+
+/-! ### Only nodes of the merged tree run -/
+
+/- "Nodes that no longer exist after merging (overwritten or deleted) are never evaluated":
+   `evaluate` receives the merged tree only, and every execution it logs belongs to a dynamic node
+   sitting at the logged path *of that tree* (`Placed root m e.path`: reached from `root` through
+   children lists) -/
+theorem C10_only_existing_nodes_run (w : World) (root : Node) (v : Val) (st : EvSt)
+    (h : evaluate w root = .ok (v, st)) :
+    ∀ e, e ∈ st.log → ∃ m, Placed root m e.path ∧ dynWhat m = some e.what := by
+  obtain ⟨new, h1, h2⟩ := evalNodeF_logExt root w _ false root [] {} v st Placed.root h
+  intro e he
+  rw [h1] at he
+  obtain ⟨m, hm, _, hd⟩ := h2 e (by simpa using he)
+  exact ⟨m, hm, hd⟩
+
+example : Placed c10ExTree (.comp {} (.call "f") [(.str "a", .leaf {} (.imp "os"))]) [.str "f"] :=
+  Placed.of_getNode (root := c10ExTree) rfl
+
 end AY
